@@ -97,6 +97,8 @@ package handler
 //@   ensures[C17] wn[wsink(w)] >= old(wn[wsink(w)]) && wn[wsink(w)] <= old(wn[wsink(w)]) + 2048 * sectorsCount
 //@   loop 1 invariant ctx.State.ROFile != nil && cdSize(ctx.State.CDSectorSize) && 0 <= $idx && offset == 24 + (startSector + $idx) * ctx.State.CDSectorSize @offset
 //@   loop 1 invariant wn[wsink(w)] == old(wn[wsink(w)]) + 2048 * $idx && fsw == old(fsw) && fopen == old(fopen) && iofaults >= old(iofaults) && limbase[ctx.State.ROFile] == 0 @progress
+//@   loop 1 invariant (forall g {fpos[g]} :: old(allocated(g)) && g != ctx.State.ROFile ==> fpos[g] == old(fpos[g])) && (forall g {limbase[g]} :: old(allocated(g)) ==> limbase[g] == old(limbase[g])) @frame
+//@   loop 1 invariant forall k {wdata[wsink(w)][k]} :: k < old(wn[wsink(w)]) ==> wdata[wsink(w)][k] == old(wdata[wsink(w)][k]) @prefix-kept
 //@   loop 1 invariant 0 <= s && s < $idx && 0 <= j && j < 2048 ==> wdata[wsink(w)][old(wn[wsink(w)]) + 2048 * s + j] == fcontent[ctx.State.ROFile][24 + (startSector + s) * ctx.State.CDSectorSize + j] @user-data
 
 //@ func Handler.HandleCreateFile results(err)
@@ -170,3 +172,50 @@ package handler
 //@   ensures[C06] err != nil || fisdir[info] ==> size == old(size) @skips-directories-and-errors
 //@   ensures result == nil
 //@   wrapok size+=info.Size()
+
+// ---- the handler as an implementation of server.Handler ----------------------------------------------
+//
+// The two abstract predicates of the interface contract are defined here, where the representation
+// is known. Each Handle* method is verified a second time against the interface's contract
+// (targets "handler.Handler.HandleX@server.Handler.HandleX").
+
+//@ pred writeAllowed(h *Handler) := h.AllowWrite
+//@ pred handlerInv(h *Handler, ctx *Context) := h != nil && h.Fs != nil && h.Copier != nil && wfState(ctx) && filesNotWire(ctx)
+//@ pred filesNotWire(ctx *Context) := (ctx.State.WOFile != nil ==> wsink(ctx.State.WOFile) == ctx.State.WOFile && ctx.State.WOFile != ctx.rd.Reader) && (ctx.State.ROFile != nil ==> ctx.State.ROFile != ctx.rd.Reader) && (ctx.State.CwdHandle != nil ==> ctx.State.CwdHandle != ctx.rd.Reader)
+
+//@ func Handler.HandleReadDirEntry results(fi)
+//@   tags C04,C05,C06,C13
+//@   requires h != nil && h.Fs != nil && ctx != nil
+//@   modifies ctx.State.CwdHandle, fopen, iofaults
+//@   ensures[C05] fsw == old(fsw) @no-write
+//@   ensures[C13] noLeak(ctx) && (fi == nil && old(ctx.State.CwdHandle) != nil ==> ctx.State.CwdHandle == nil && !fopen[old(ctx.State.CwdHandle)]) @closed-at-end
+//@   ensures[C06] fi != nil ==> ctx.State.CwdHandle == old(ctx.State.CwdHandle) @still-open
+//@   loop 1 invariant ctx.State.CwdHandle != nil && ctx.State.CwdHandle == old(ctx.State.CwdHandle) && fopen == old(fopen) && fsw == old(fsw) && iofaults >= old(iofaults)
+
+//@ func Handler.HandleReadDir results(files)
+//@   tags C04,C05,C06,C13
+//@   requires h != nil && h.Fs != nil && ctx != nil
+//@   alloc 1<<50
+//@   modifies iofaults
+//@   ensures[C05] fsw == old(fsw) @no-write
+//@   ensures[C13] fopen == old(fopen)
+//@   ensures[C06] forall y {at(files, y)} :: base(files) <= y && y < end(files) ==> at(files, y) != nil @entries-valid
+//@   loop 1 invariant iofaults >= old(iofaults) && fsw == old(fsw) && fopen == old(fopen) && len(files) <= $idx
+//@   loop 1 invariant forall y {at(files, y)} :: base(files) <= y && y < end(files) ==> at(files, y) != nil @entries-valid
+//@   loop 1 invariant forall y {at(entries, y)} :: base(entries) <= y && y < end(entries) ==> at(entries, y) != nil @source-valid
+
+//@ func Handler.HandleReadFile results(err)
+//@   tags C02,C04,C05,C13
+//@   any k int
+//@   requires h != nil && wfState(ctx) && wr != nil
+//@   wrapok int64(offset)
+//@   wrapok int32(n)
+//@   modifies fpos, limbase, wn[wsink(wr)], wdata[wsink(wr)], rwhdr[wr], iofaults, repr(wr)
+//@   let u = wsink(wr)
+//@   let o = wn[wsink(wr)]
+//@   ensures[C05] fsw == old(fsw) @no-write
+//@   ensures[C13] fopen == old(fopen) @no-handle-change
+//@   ensures[C02] k < o ==> wdata[u][k] == old(wdata[u][k]) @earlier-output-kept
+//@   ensures[C02] err == nil && rwhdr[wr] && limit < 1<<31 ==> wn[u] >= o + 4 && sbe32(wdata[u], o) == wn[u] - o - 4 @announced-equals-sent
+//@   ensures[C02] rwhdr[wr] && o + 4 <= k && k < wn[u] ==> wdata[u][k] == fcontent[ctx.State.ROFile][offset + k - o - 4] @bytes-of-the-file
+//@   ensures[C02] err == nil && rwhdr[wr] && iofaults == old(iofaults) && offset < 1<<62 && limit < 1<<31 ==> wn[u] - o - 4 == min(limit, max(fsize[ctx.State.ROFile] - offset, 0)) @exact-count
